@@ -5,7 +5,7 @@
 # demonstration fails with the change and passes without it.  Writes <dir>/verify.json.
 set -u
 D="$(cd "$1" && pwd)"
-WT=/tmp/vseed-wt
+WT=${WT:-/tmp/vseed-wt}
 HEAD=$(git -C /repo rev-parse HEAD)
 if [ ! -d "$WT" ]; then git -C /repo worktree add -q --detach "$WT" "$HEAD" || exit 2; fi
 cd "$WT" || exit 2
@@ -21,12 +21,12 @@ if $applies; then
   fails=$(echo "$out" | grep -E "^\s+FAIL " | awk '{print $NF}' | sort -u | tr '\n' ' ')
   if echo "$suite_summary" | grep -q "55 passed, 1 failed" && [ "$(echo $fails)" = "expand_env_vars_tests" -o "$(echo $fails)" = "append::test::expand_env_vars_tests" ]; then suite_ok=true; fi
   if [ -f "$D/demo_test.rs" ]; then cp "$D/demo_test.rs" tests/demo_test.rs; DEMO="cargo test --offline ${DEMO_FEATURES:-} --test demo_test"; else cp "$D/demo.rs" examples/vdemo.rs; DEMO="cargo run --offline --example vdemo"; fi
-  if ! $DEMO >/tmp/vseed-demo-with.log 2>&1; then
+  if ! $DEMO >$WT.demo-with.log 2>&1; then
      # a compile error is not a failing demonstration
-     if ! grep -q "could not compile" /tmp/vseed-demo-with.log; then demo_fails_with=true; fi
+     if ! grep -q "could not compile" $WT.demo-with.log; then demo_fails_with=true; fi
   fi
   git apply -R "$D/patch.diff"
-  if $DEMO >/tmp/vseed-demo-without.log 2>&1; then demo_passes_without=true; fi
+  if $DEMO >$WT.demo-without.log 2>&1; then demo_passes_without=true; fi
 fi
 git checkout -q -- . ; git clean -fdq tests examples src
 cat > "$D/verify.json" <<JSON
